@@ -36,6 +36,22 @@ CHECKS = {
             "class invariant as contracts on the real constructor, the three setters and fit (modular: fit is checked against the setters' contracts), VCs from the AST, nonlinear int/real obligations discharged by z3 (nlsat after Ackermann reduction) / cvc5; float history sweep as bounded stand-in",
             "WF (square pixels of the configured size, resolution*pixel = extent, meshes, coverage of the request with excess < one pixel) is proved to be established by the constructor and preserved by pixel_size=, birth_range=, pers_range= and fit for all real arguments; induction over the history gives every finite sequence. Floating-point truncation effects are covered only by the bounded sweep of histories.",
             "real arithmetic for floats (the quotients 0.3/0.1 etc. are exercised by the float sweep only); np.linspace contract D14; induction over histories is a meta-argument; generator, models, contracts trusted"),
+    "C01": ("proof",
+            "VCs from the AST of the real bottleneck(): two cut points (filter, cost matrix) and three loop contracts (threshold search with ghost window, graph construction, matching extraction); Hopcroft-Karp / np.unique / mask indexing as dependency contracts; z3 (E-matching) + cvc5; exhaustive small-scope stand-in vs an independent brute-force oracle under several hash seeds",
+            "Proved for all diagram sizes and contents: the filtered diagrams are the finite-death rows (or the (0,0) placeholder) with a warning iff rows were dropped; every entry of the (M+N)^2 matrix equals the L-infinity / (d-b)/2 / inf / 0 cost of the statement; the graph handed to Hopcroft-Karp is exactly the threshold graph; the search returns the least feasible candidate among the distinct entries. That this equals the min over matchings of the max cost is the paper lemma L1/L2.",
+            "D2 bisect, D3 Hopcroft-Karp (maximum matching), D6 mask indexing, D7 unique/sort; floats as reals with tagged infinities; L1/L2 paper lemmas; generator, models, contracts trusted"),
+    "C02": ("proof",
+            "VCs from the AST of the real wasserstein(): cut points (filter, cost matrix) and the assignment contract D4; NRA obligations for the 45-degree rotation; z3/cvc5; brute-force stand-in incl. far-from-origin offsets",
+            "Proved for all sizes/contents: filter as in C01; every entry of the augmented matrix equals Euclidean distance / (d-b)/sqrt2 / inf / 0; the returned value is the total cost of the assignment returned by linear_sum_assignment on that matrix, whose optimality is the dependency contract D4.",
+            "D4 linear_sum_assignment optimal; D6; sqrt uninterpreted with its defining axioms, cos(pi/4)=sin(pi/4)=h; floats as reals; L2; generator, models, contracts trusted"),
+    "C06": ("proof",
+            "postconditions on the real matching-extraction code of bottleneck (loop invariant over an append-only list, enumeration facts) and wasserstein (masked stores + row filter, Sigma-compress meta-rule); certificate checker as exhaustive small-scope stand-in",
+            "Proved for all sizes: distance unchanged by the flag (same path prefix), every point of each diagram in exactly one row, -1 convention, third column = the cost-matrix entry of the pair (which the matrix cut proves to be the cost rule), every bottleneck row cost <= distance, sum of Wasserstein row costs == distance, dropped rows are exactly diagonal-diagonal. Attainment of the bottleneck maximum is bounded only.",
+            "D3/D4 bijections, D6 enumeration (prefix-count) facts and Sigma meta-rules trusted (valid by induction); generator, models, contracts trusted"),
+    "C07": ("other",
+            "entrywise relational lemmas on the cost specs (transpose symmetry, diagonal shift, scaling, Linf<=L2, ground triangle inequalities) proved by z3 + the C01/C02 value contracts; the laws of the optimum themselves are paper lemmas exercised metamorphically on diagrams up to 60 (quick) / 200 (thorough) points",
+            "Mixed: what is proved is that the code computes min-max / min-sum over a cost matrix with the stated entrywise symmetries; that these imply the metric and invariance laws is L3-L9 (not machine-checked); the bounded part samples the laws directly, including chain and dominant-bar families.",
+            "L3-L9 paper lemmas; dependency contracts of C01/C02; float rule of DESIGN 2.6 for comparisons"),
 }
 
 NOT_YET = "check not built yet in this session (planned per DESIGN.md section 5)"
